@@ -165,6 +165,9 @@ Section Main.
     - (* SetAdE *)
       destruct (call_chain_cases k e chain 0) as [[H1 H2]|[H1 H2]]; rewrite H1, H2, ?call_chain_nofault; [left | right]; split; reflexivity.
     - (* Opaque *) right; split; reflexivity.
+    - (* SetPV *) destruct (call_vld_cases k e 0 v) as [[H1 H2]|[H1 H2]]; rewrite H1, H2; [left | right]; split; reflexivity.
+    - (* SetDPV *) destruct (call_vld_cases k e 0 v) as [[H1 H2]|[H1 H2]]; rewrite H1, H2; [left | right]; split; reflexivity.
+    - (* DelPV *) right; split; reflexivity.
   Qed.
 
   (* whatever the plan, an operation that raises has touched nothing and notified nobody *)
@@ -255,6 +258,13 @@ Section Main.
     - (* SetZ *) destruct (length (zz s0)); [apply Hd|]. destruct (Z.eqb _ _); apply Hd.
     - (* SetAdE *) rewrite call_chain_nofault. apply Hd.
     - apply Hd.
+    - (* SetPV *) destruct (call_vld vld NoFault 0 v) as [y|e0] eqn:E;
+        [| intros H; apply Hr in H; subst e0; left; eapply call_vld_nofault; exact E].
+      destruct (Z.eqb y _); apply Hd.
+    - (* SetDPV *) destruct (call_vld vld NoFault 0 v) as [y|e0] eqn:E;
+        [| intros H; apply Hr in H; subst e0; left; eapply call_vld_nofault; exact E].
+      destruct (Z.eqb y (dpv s0)); apply Hd.
+    - (* DelPV *) destruct (pv s0) as [o|]; [destruct (Z.eqb o (dpv s0))|]; apply Hd.
   Qed.
 
   (* ---- one operation under a handler fault ------------------------------------------ *)
